@@ -489,6 +489,8 @@ pub fn run(ctx: &mut Ctx) {
                     (0x18, if r.chance(1, 10) { src_bytes.to_vec() } else { src_bytes[a..b].to_vec() })
                 }
             };
+            // a SYN is a retransmission (same ISN) or opens a new connection on the 4-tuple (another ISN)
+            let isn = if flags & 0x02 != 0 && r.chance(1, 3) { isn.wrapping_add(77_777) } else { isn };
             let seq = if flags & 0x02 != 0 { isn } else { isn.wrapping_add(1).wrapping_add(sent[slot]) };
             if kind >= 8 {
                 sent[slot] = sent[slot].wrapping_add(payload.len() as u32);
